@@ -311,6 +311,14 @@ impl LongTermCredentialClient {
             )?;
         }
 
+        if !can_be_echoed(&params.realm, &nonce) {
+            debug!(
+                "[{:?}] Nonce attribute is too long to be echoed.",
+                msg.transaction_id()
+            );
+            return Err(IntegrityError::Discarded);
+        }
+
         // Update Nonce and retry with a new transaction
         params.nonce = nonce;
         self.change_state(LongTermCredentialState::Retry(RetryCause::StaleNonce));
@@ -641,6 +649,12 @@ where
     })
 }
 
+// Checks whether the REALM and NONCE values received from the server meet
+// the limits that apply when they are encoded in a request
+fn can_be_echoed(realm: &Realm, nonce: &Nonce) -> bool {
+    Realm::new(realm.as_str()).is_ok() && Nonce::new(nonce.as_str()).is_ok()
+}
+
 fn create_long_term_auth_attrs(
     transaction_id: &TransactionId,
     user_name: &UserName,
@@ -662,6 +676,16 @@ fn create_long_term_auth_attrs(
         );
         IntegrityError::Discarded
     })?;
+
+    // REALM and NONCE are echoed in every following request, a value that can
+    // be decoded but is too long to be encoded again can not be used
+    if !can_be_echoed(&realm, &nonce) {
+        debug!(
+            "[{:?}] Realm or Nonce attribute is too long to be echoed.",
+            transaction_id
+        );
+        return Err(IntegrityError::Discarded);
+    }
 
     let user_hash = if user_anonymity {
         Some(create_user_hash_attr(transaction_id, user_name, &realm)?)
